@@ -357,6 +357,64 @@ func (in *Interp) InstallStd() {
 		}
 		return nil, nil
 	}
+	// sort.Sort / sort.Stable on a value of the module that implements sort.Interface: a stable insertion sort
+	// that drives the value's own Len, Less and Swap, read from source
+	sortIface := func(in *Interp, _ Value, a []Value) ([]Value, error) {
+		recv := a[0]
+		tag := ""
+		switch x := recv.(type) {
+		case *Rec:
+			if x != nil {
+				tag = x.T
+			}
+		case *Obj:
+			if x != nil {
+				tag = x.T
+			}
+		}
+		i := strings.LastIndex(tag, ".")
+		if i <= 0 {
+			return nil, &Unsupported{What: "sort of a value without a known dynamic type"}
+		}
+		fLen, fLess, fSwap := in.Prog.Func(tag[:i], tag[i+1:]+".Len"), in.Prog.Func(tag[:i], tag[i+1:]+".Less"), in.Prog.Func(tag[:i], tag[i+1:]+".Swap")
+		if fLen == nil || fLess == nil || fSwap == nil {
+			return nil, &Unsupported{What: "sort.Interface methods of " + tag + " not found"}
+		}
+		out, err := in.Call(fLen, recv, nil)
+		if err != nil {
+			return nil, err
+		}
+		n, _ := out[0].(int64)
+		for i := int64(1); i < n; i++ {
+			for j := i; j > 0; j-- {
+				lo, err := in.Call(fLess, recv, []Value{j, j - 1})
+				if err != nil {
+					return nil, err
+				}
+				if b, _ := lo[0].(bool); !b {
+					break
+				}
+				if _, err := in.Call(fSwap, recv, []Value{j, j - 1}); err != nil {
+					return nil, err
+				}
+			}
+		}
+		return nil, nil
+	}
+	in.Stubs["sort.Stable"] = sortIface
+	in.Stubs["sort.Sort"] = sortIface
+	in.Stubs["slices.AppendSeq"] = func(in *Interp, _ Value, a []Value) ([]Value, error) {
+		s, err := seqOf(a[1])
+		if err != nil {
+			return nil, err
+		}
+		var base []Value
+		if b, ok := a[0].(*Slice); ok && b != nil {
+			base = *b.Elems
+		}
+		out := append(base, s.Elems...)
+		return []Value{&Slice{Elems: &out}}, nil
+	}
 	in.Stubs["sort.Strings"] = in.Stubs["slices.Sort"]
 	in.Stubs["sort.Ints"] = in.Stubs["slices.Sort"]
 	in.Stubs["cmp.Compare"] = func(in *Interp, _ Value, a []Value) ([]Value, error) {
